@@ -2,11 +2,11 @@ package exec
 
 import (
 	"fmt"
-	"strings"
 	"go/constant"
 	"go/token"
 	"go/types"
 	"math/big"
+	"strings"
 	"unicode/utf8"
 
 	"gosmt/sym"
